@@ -536,14 +536,19 @@ Section Local.
     In (l, tag) frag_loaders -> kind_of_class tag = Some k ->
     (forall jx, dget (s "__id__") (flds jx) = None) ->
     (forall st, get_state D v st = do (jx, st1) <- get_state D x st; Ok (node_state c mo l (flds jx) (pid v), st1)) ->
-    (forall rec sl m jx, build E rec sl [] tag k m (node_state c mo l (flds jx) (pid v))
+    (forall rec sl m jx, (exists kv, jx = JObj kv) ->
+                         build E rec sl [] tag k m (node_state c mo l (flds jx) (pid v))
                          = do (h, m0) <- node_init sl k tag [] true m (node_state c mo l (flds jx) (pid v)) JNull;
                            do (n, m1) <- rec [] (SOne slot) m0 jx; Ok (Node h [n], m1)) ->
     (forall sl ns, Forall (fun n => notleaf n = true) ns -> nice (mkh sl k tag (pid v) c mo JNull) ns = true) ->
     PV v.
   Proof.
-    intros Hv Hx Hnd Hl Hk Hf Hget Hbuild Hnice st j st' H Hb. rewrite Hget in H.
+    intros Hv Hx Hnd Hl Hk Hf Hget Hbuild0 Hnice st j st' H Hb. rewrite Hget in H.
     destruct (get_state D x st) as [[jx st1]|] eqn:Ex; [|discriminate]. cbn [bind] in H. injection H as <- <-.
+    assert (Hbuild : forall rec sl m, build E rec sl [] tag k m (node_state c mo l (flds jx) (pid v))
+                         = do (h, m0) <- node_init sl k tag [] true m (node_state c mo l (flds jx) (pid v)) JNull;
+                           do (n, m1) <- rec [] (SOne slot) m0 jx; Ok (Node h [n], m1)).
+    { intros rec sl m. apply Hbuild0. destruct (root_fields _ _ _ _ _ Ex) as [kv [-> _]]. eauto. }
     destruct (Hx _ _ _ Ex Hb) as [Hnext HQx]. split; [exact Hnext|].
     pose proof (Oid _ Hv) as Hid.
     apply (wrap v c mo l (flds jx) tag k (d_next st) (d_next st1)); try assumption; [apply Hf|].
@@ -691,6 +696,38 @@ Section Local.
              (s "_general.OperatorFuncNode") KOperatorFunc (GetTree.K "attrs")); try assumption; try reflexivity;
       try (cbn [need]; lia); [cbn; tauto|].
     intros sl ns. apply nice_plain. exact I.
+  Qed.
+
+  (* user objects on the generic object path *)
+  Lemma objstate_PV id mo c x : Objs (PObj id mo c HKNone [] OKState x) -> PV x -> PV (PObj id mo c HKNone [] OKState x).
+  Proof.
+    intros Hv Hx.
+    apply (single_PV (PObj id mo c HKNone [] OKState x) x c mo (CodecDump.K "ObjectNode") (fun jx => [(CodecDump.K "content", jx)])
+             (s "_general.ObjectNode") KObject (GetTree.K "attrs")); try assumption; try reflexivity;
+      try (cbn [need]; lia); [cbn; tauto| |].
+    { intros rec sl m jx [kv ->]. reflexivity. }
+    intros sl ns. apply nice_plain. exact I.
+  Qed.
+
+  Lemma objreduce_PV id mo c x : Objs (PObj id mo c HKNone [] OKReduce x) -> PV x -> PV (PObj id mo c HKNone [] OKReduce x).
+  Proof.
+    intros Hv Hx.
+    apply (single_PV (PObj id mo c HKNone [] OKReduce x) x c mo (CodecDump.K "ConstructorFromReduceNode") (fun jx => [(CodecDump.K "content", jx)])
+             (s "_general.ConstructorFromReduceNode") KCtorReduce (GetTree.K "content")); try assumption; try reflexivity;
+      try (cbn [need]; lia); [cbn; tauto|].
+    intros sl ns. apply nice_plain. exact I.
+  Qed.
+
+  Lemma objnostate_PV id mo c : Objs (PObj id mo c HKNone [] OKNoState pnone) -> PV (PObj id mo c HKNone [] OKNoState pnone).
+  Proof.
+    intros Hv st j st' H Hb. cbn [get_state] in H. injection H as <- <-. split; [lia|].
+    apply (leaf_PV (PObj id mo c HKNone [] OKNoState pnone) _ _ _ _ (s "_general.ObjectNode") KObject (fun h => h)
+             [Leaf (SOne (GetTree.K "attrs")) LNone] (d_next st) (d_next st));
+      try assumption; try reflexivity; try lia.
+    - cbn; tauto.
+    - intros x [<-|[]]. eauto.
+    - intros rec sl m n m' H. unfold build in H.
+      destruct (node_init _ _ _ _ _ _ _ _) as [[h m0]|]; [|discriminate H]. cbn [bind] in H. injection H as <- <-. eauto.
   Qed.
 
   (* a dtype travels as an empty carrier array the dumper creates *)
@@ -969,7 +1006,11 @@ Section Local.
     - intros id mo c f a k n IHf IHa IHk IHn [Ho [-> [-> [Hok [Hf [Ha [Hk0 Hn0]]]]]]]. apply partial_PV; auto.
     - intros id c a IHa [Ho [Hr [Hok Hva]]]. apply opfunc_PV; try assumption. apply IHa. exact Hva.
     - intros; cbn [vok] in *; tauto.
-    - intros; cbn [vok] in *; tauto.
+    - intros id mo c hk h ok x _ IHx [Ho [-> [-> [Hr [Hhk Hok]]]]]. destruct ok as [| | |e].
+      + destruct Hok as [_ Hvx]. apply objreduce_PV; auto.
+      + apply objstate_PV; auto.
+      + subst x. apply objnostate_PV; auto.
+      + contradiction.
   Qed.
 
 End Local.
@@ -1700,7 +1741,7 @@ Section Dumped.
     rewrite Ha in Hmem. cbn [a_members] in Hmem.
     set (C := {| c_env := E; c_members := d_members st; c_namedtuples := f_namedtuples F; c_generic := f_generic F;
                  c_missing := f_missing F; c_hkinds := f_hkinds F |}).
-    destruct (share_roundtrip D F C base v _ st (conj eq_refl eq_refl) eq_refl eq_refl Hmem Hsane Hreg Hg E0) as [_ Hl].
+    destruct (share_roundtrip D F C base v _ st (conj eq_refl eq_refl) eq_refl eq_refl eq_refl Hmem Hsane Hreg Hg E0) as [_ Hl].
     unfold load_state in Hl. cbn [c_env C] in Hl.
     destruct (get_tree default_fuel E (JInt (e_cur E)) [] (SOne (GetTree.K "root")) [] (JObj kv)) as [[t m']|] eqn:Ht; [|discriminate Hl].
     exists t, m'. split.
